@@ -14,7 +14,7 @@ EXTRA_TARGETS = ["Model/Canon.vo", "Model/C08Step.vo"]
 NB = msggen.NBUILTIN
 
 TRUSTED = [
-    "Coq 8.16.1 kernel and vm_compute (no native_compute); full .vo build via coq_makefile; axioms: none (all 15 theorems of Properties/C08.v "
+    "Coq 8.16.1 kernel and vm_compute (no native_compute); full .vo build via coq_makefile; axioms: none (all 20 theorems of Properties/C08.v "
     "are 'Closed under the global context')",
     "hand-written model coq/Model/{Object,Eq,Float,Utf8,TimeCore,Encode,Decode}.v (shared codec model) and coq/Model/C08Step.v "
     "(load taken apart into step / decode_value / store / loopV — proved equal to Decode.load by conversion, Proofs/C08StepP.v load_unfold —, "
@@ -34,7 +34,14 @@ TRUSTED = [
 ASSUMPTIONS = [
     "Python int is Z; str is its UTF-8 bytes (no lone surrogates); float is its binary64 pattern; aware datetimes are microseconds since the epoch; "
     "object identity is not modelled (values are trees); CPython's recursion limit is not modelled",
-    "C08_evolution_bytes / C08_evolution_partial take as PREMISES what belongs to the round-trip property C01 (owned by another check): "
+    "C08_evolution (the headline) is UNCONDITIONAL up to decidable side conditions evaluated on every generated case: c01_schema_ok sn and "
+    "c01_value_ok sn m (C01's own hypotheses: well-formed schema with the bundled classes in place; in-range value whose unselected oneof members "
+    "hold PLACEHOLDER, no unknown bytes, distinct dict keys), masks_ok sn masks (bundled and synthetic map-Entry classes keep all their fields; "
+    "two _refuted theorems show the older reader raises otherwise) and an encoding shorter than 2^64 bytes; the deleted fields may be ANY subset of "
+    "the fields of ANY user class at ANY nesting depth (recursive classes included). It imports C01's theorems (round trip, decoded == original, "
+    "stability) for the newer schema and, slot by slot, for the older schema (input_distribution: premise_masks_ok, premise_c01_schema_ok, "
+    "premise_c01_value_ok, evolution_theorem_instance = the statement itself evaluated by vm_compute)",
+    "the older, conditional C08_evolution_bytes / C08_evolution_partial (kept: they also speak about byte strings that are no message's encoding) take as PREMISES what belongs to the round-trip property C01: "
     "(C01-new) parse sn c (enc sn m) = Ok m1 with m1 == m; (C01-old) the older writer reproduces the bytes of the fields it knows "
     "(enc so (clear_unk mo) = known_raw ...), or, weaker, the newer reader sees the same object in them; further premises: the older reader and "
     "writer do not raise on these bytes, field numbers of the class are unique, and split_free (no oneof group has a deleted and a kept member both "
@@ -353,11 +360,12 @@ def build_pairs(ctx):
 
 
 class Case:
-    __slots__ = ("pi", "ci", "kind", "bs", "inserted", "m", "m_ok", "src", "pre")
+    __slots__ = ("pi", "ci", "kind", "bs", "inserted", "m", "m_ok", "src", "pre", "lit")
 
-    def __init__(self, pi, ci, kind, bs, inserted, m, m_ok, src="gen", pre=None):
+    def __init__(self, pi, ci, kind, bs, inserted, m, m_ok, src="gen", pre=None, lit=None):
         self.pi, self.ci, self.kind, self.bs, self.inserted, self.m, self.m_ok, self.src = pi, ci, kind, bs, inserted, m, m_ok, src
         self.pre = pre  # bytes parsed into the SAME older object before bs (m.parse(pre); m.parse(bs)), or None
+        self.lit = lit  # Gallina literal of the raw state of m (only for kind == "plain"): input of C08_evolution
 
 
 def run(ctx):
@@ -408,6 +416,10 @@ def run(ctx):
             try:
                 m = msggen.gen_message(newer, ci, rng, in_range=in_range)
                 b1 = bytes(m)
+                try:
+                    lit = msggen.obj_literal(newer, m)
+                except msggen.Unmodellable:
+                    lit = None
             except msggen.Unmodellable:
                 ctx.count("unmodellable")
                 continue
@@ -422,7 +434,7 @@ def run(ctx):
                     pre = gen_unknown_padded(rng, {f.number for f in newer.classes[ci].fields}, n=rng.randint(1, 2))
                     if rng.random() < 0.4:
                         pre = b1 + pre
-                cases.append(Case(pi, ci, kind, bs, inserted, m, True, pre=pre))
+                cases.append(Case(pi, ci, kind, bs, inserted, m, True, pre=pre, lit=lit if kind == "plain" else None))
 
     phases["generate"] = round(time.time() - t0, 1)
     t0 = time.time()
@@ -462,6 +474,7 @@ def run(ctx):
         ctx.fail("corr", "model (parse/enc_obj over drop_fields) and implementation (Older().parse / bytes / Newer().parse) disagree",
                  input=d, theorem_or_correspondence="T2 correspondence Model/Decode.v, Encode.v, C08Step.v <-> betterproto")
     ctx.cov["disagreements_checked"] = len(pairs)
+    evolution_instances(ctx, pairs_s, cases, prelude)
 
     phases["coq_compare"] = round(time.time() - t0, 1)
     t0 = time.time()
@@ -474,6 +487,47 @@ def run(ctx):
         if id(newer) not in seen:
             seen.add(id(newer))
             newer.dispose()
+
+
+def evolution_instances(ctx, pairs_s, cases, prelude):
+    """C08_evolution on the generated data, evaluated inside Coq: its hypotheses (c01_schema_ok, masks_ok per schema pair;
+    c01_value_ok per generated message) and, as an executable boolean, its conclusion for every message that meets them
+    (the older reader/writer succeed, the newer reader returns norm_obj m, same length).  Counted, never a failure by
+    itself: a hypothesis that fails marks an input outside the theorem; a conclusion that fails under the hypotheses
+    would contradict the proof and IS reported."""
+    imports = IMPORTS + " Model.C01Def Proofs.C08EvoDef"
+    exprs, keys = [], []
+    for i, (newer, older, masks, label) in enumerate(pairs_s):
+        exprs.append((f"cbool (masks_ok scN{i} {masks_coq(masks)})", lib.cbool(True)))
+        keys.append(("premise_masks_ok", None))
+        exprs.append((f"cbool (c01_schema_ok scN{i})", lib.cbool(True)))
+        keys.append(("premise_c01_schema_ok", None))
+    for case in cases:
+        if case.lit is None:
+            continue
+        pi, c = case.pi, case.ci + NB
+        exprs.append((f"cbool (c01_value_ok scN{pi} {case.lit})", lib.cbool(True)))
+        keys.append(("premise_c01_value_ok", case))
+        concl = (f"(let m := {case.lit} in cbool (negb (c01_value_ok scN{pi} m) || "
+                 f"match enc_obj scN{pi} m with Ok b1 => match parse scO{pi} {c}%nat b1 with Ok mo => "
+                 f"match enc_obj scO{pi} mo with Ok b2 => Nat.eqb (length b2) (length b1) && "
+                 f"match parse scN{pi} {c}%nat b2 with Ok m2 => cv_eqb (cv_of_obj m2) (cv_of_obj (norm_obj scN{pi} m)) | Err _ => false end "
+                 f"| Err _ => false end | Err _ => false end | Err _ => false end))")
+        exprs.append((concl, lib.cbool(True)))
+        keys.append(("evolution_theorem_instance", case))
+    before = ctx.cov["traces_validated_against_impl"]
+    bad = set(lib.coq_compare(ctx, "c08evo", imports, exprs, chunk=120, prelude=prelude))
+    ctx.cov["traces_validated_against_impl"] = before   # these are evaluations of the theorem's own statement, not traces of the implementation
+    for i, (key, case) in enumerate(keys):
+        ctx.count(key + (":fails" if i in bad else ":holds"))
+        if key == "evolution_theorem_instance" and i in bad:
+            newer, older, masks, label = pairs_s[case.pi]
+            ctx.fail("corr", "C08_evolution evaluated on a generated message that meets its hypotheses is false in the model: "
+                             "the statement in Properties/C08.v and the model have drifted apart",
+                     input=describe(case, newer, older, masks),
+                     theorem_or_correspondence="C08_evolution (Properties/C08.v) evaluated by vm_compute")
+        if key in ("premise_masks_ok", "premise_c01_schema_ok") and i in bad and len(ctx.notes) < 8:
+            ctx.notes.append(f"{key} fails for schema pair {i // 2}: C08_evolution says nothing about it")
 
 
 def describe(case, newer, older, masks):
